@@ -530,10 +530,13 @@ CO_ERR COCSdoResponse(CO_CSDO *csdo)
             COCSdoAbort(csdo, CO_SDO_ERR_CMD);
             COCSdoTransferFinalize(csdo);
         }
-    } else if (cmd == 0x60u) {
+    } else if ((csdo->Tfer.Type == CO_CSDO_TRANSFER_DOWNLOAD) &&
+               (cmd == 0x60u)) {
         result = COCSdoDownloadExpedited(csdo);
         return (result);
-    } else if ((cmd & 0x43u) != 0u) {
+    } else if ((csdo->Tfer.Type == CO_CSDO_TRANSFER_UPLOAD) &&
+               ((cmd & 0xE2u) == 0x42u)) {
+        /* expedited upload response: scs = 2, e = 1 */
         result = COCSdoUploadExpedited(csdo);
         return (result);
     } else {
